@@ -34,6 +34,7 @@ type c17Iface struct {
 }
 
 type c17Route struct {
+	Dst    string `json:"dst,omitempty"` // "" = default route; else a more specific route that must NOT count as default
 	Dev    string `json:"dev"`
 	Via    string `json:"via,omitempty"`
 	Metric int    `json:"metric"`
@@ -47,6 +48,7 @@ type c17Case struct {
 	Iface  string     `json:"iface_flag,omitempty"`
 	SrcIP  string     `json:"srcip_flag,omitempty"`
 	SrcMAC string     `json:"srcmac_flag,omitempty"`
+	Live   bool       `json:"arp_live_mode"` // arp --live: several passes, all must obey the rule
 }
 
 type c17Report struct {
@@ -72,6 +74,9 @@ type c17Report struct {
 
 func (c c17Case) args() []string {
 	a := []string{c.Scan, "--json", "--exit-delay", "30ms"}
+	if c.Live && c.Scan == "arp" {
+		a = append(a, "--live", "60ms")
+	}
 	if c.Scan != "arp" {
 		a = append(a, "--gwmac", "02:00:00:00:ee:01", "-a", "/dev/null")
 	}
@@ -96,6 +101,13 @@ func c17Run(c c17Case) (*c17Report, error) {
 		return nil, fmt.Errorf("VERIF_SX_BIN / VERIF_TOOL_NSRUN not set")
 	}
 	sc := map[string]interface{}{"ifaces": c.Ifaces, "routes": c.Routes, "sx_bin": sx, "sx_args": c.args(), "timeout_s": 30}
+	if c.Live && c.Scan == "arp" {
+		// interrupt after three passes' worth of frames (or after 8 s if they never come)
+		if p, ok := gram.RefIPv4Target(c.Target); ok {
+			sc["sigint_after_frames"] = 3 * int(p.Size())
+		}
+		sc["sigint_after_ms"] = 8000
+	}
 	raw, _ := json.Marshal(sc)
 	f, err := os.CreateTemp(c08WorkDir(), "c17-*.json")
 	if err != nil {
@@ -206,12 +218,12 @@ func c17Check(c c17Case) *kit.Verdict {
 		rule = "default-route"
 		best := -1
 		for _, r := range c.Routes {
-			if best < 0 || r.Metric < best {
+			if r.Dst == "" && (best < 0 || r.Metric < best) {
 				best = r.Metric
 			}
 		}
 		for _, r := range c.Routes {
-			if r.Metric == best && byName[r.Dev] != nil {
+			if r.Dst == "" && r.Metric == best && byName[r.Dev] != nil {
 				choices = append(choices, c17Choice{r.Dev, firstV4(byName[r.Dev])})
 			}
 		}
@@ -337,7 +349,12 @@ func c17Check(c c17Case) *kit.Verdict {
 			return v.Failf("%s\nprobes of one scan left through different interfaces / sources: %s/%s and %s/%s\n%s", line, first.iface, first.srcIP, p.iface, p.srcIP, ctx())
 		}
 	}
-	if len(probes) != want {
+	if c.Live && c.Scan == "arp" {
+		if len(probes) < 2*want {
+			return v.Failf("%s\nlive mode (rescan every 60 ms), interrupted after three passes' worth of frames or 8 s: only %d probes captured, expected at least two passes of %d\n%s", line, len(probes), want, ctx())
+		}
+		v.Label("live")
+	} else if len(probes) != want {
 		return v.Failf("%s\n%d probe frames captured, expected %d\n%s", line, len(probes), want, ctx())
 	}
 	if rep.Exit != 0 {
@@ -425,6 +442,12 @@ func c17Gen(t *rapid.T) c17Case {
 		}
 		c.Routes = append(c.Routes, r)
 	}
+	// more specific routes (half-default routes of VPN clients, a static /8) - they are not default routes
+	for k := 0; k < rapid.SampledFrom([]int{0, 0, 1, 2}).Draw(t, "nspecific"); k++ {
+		ifc := c.Ifaces[kit.Uniform(t, "sdev", len(c.Ifaces))]
+		c.Routes = append(c.Routes, c17Route{Dst: rapid.SampledFrom([]string{"0.0.0.0/1", "128.0.0.0/1", "0.0.0.0/8", "203.0.0.0/8"}).Draw(t, "sdst"), Dev: ifc.Name,
+			Metric: rapid.SampledFrom([]int{0, 5, 100}).Draw(t, "smetric")})
+	}
 	c.Scan = rapid.SampledFrom([]string{"arp", "icmp", "tcp", "udp"}).Draw(t, "scan")
 	// target: attached to some interface's network, or not attached at all
 	if len(nets) > 0 && rapid.IntRange(0, 2).Draw(t, "attached") != 0 {
@@ -449,6 +472,7 @@ func c17Gen(t *rapid.T) c17Case {
 		c.SrcMAC = "02:99:00:00:00:09"
 	}
 	// --srcmac on a MAC-less interface is left open by the statement: do not generate it when a tun device could be chosen
+	c.Live = c.Scan == "arp" && rapid.IntRange(0, 3).Draw(t, "live") == 0
 	if c.SrcMAC != "" {
 		for _, i := range c.Ifaces {
 			if i.Kind == "tun" {
@@ -468,7 +492,7 @@ func TestC17Netns(t *testing.T) {
 	_ = time.Second
 	kit.Run(t, kit.Spec[c17Case]{
 		Prop: "C17",
-		Rule: "the real sx binary inside a fresh network namespace built from a generated configuration: 1..3 veth pairs and optionally a tun device (no hardware address), each with 0..3 IPv4 networks (/8../30, overlapping across interfaces) and/or IPv6 only, 0..3 default routes (via a gateway or device routes) with metrics incl. ties; scan arp/icmp/tcp/udp of a /30../32 target attached to some interface or to none, with any subset of --iface/--srcip/--srcmac (--srcmac never together with a tun device). Observed: frames on the far end of every veth (AF_PACKET) and on the tun file descriptor. Oracle (validity predicate computed from the configuration as the kernel reports it): all probes leave through one admissible interface (attached one among the allowed; else --iface; else a lowest-metric default-route device) with an admissible source (own address on the target's network; else first address; flags override), source MAC = interface's or --srcmac, raw-IP framing on a MAC-less device; if no admissible choice exists: an error (exit status or error record) and zero probe frames. non-trivial: >=2 configured interfaces; distinct by case",
+		Rule: "the real sx binary inside a fresh network namespace built from a generated configuration: 1..3 veth pairs and optionally a tun device (no hardware address), each with 0..3 IPv4 networks (/8../30, overlapping across interfaces) and/or IPv6 only, 0..3 default routes (via a gateway or device routes) with metrics incl. ties, plus 0..2 more specific routes (0.0.0.0/1, 128.0.0.0/1, /8) that must not count as default routes; scan arp/icmp/tcp/udp (arp also in --live mode, interrupted after several passes) of a /30../32 target attached to some interface or to none, with any subset of --iface/--srcip/--srcmac (--srcmac never together with a tun device). Observed: frames on the far end of every veth (AF_PACKET) and on the tun file descriptor. Oracle (validity predicate computed from the configuration as the kernel reports it): all probes leave through one admissible interface (attached one among the allowed; else --iface; else a lowest-metric default-route device) with an admissible source (own address on the target's network; else first address; flags override), source MAC = interface's or --srcmac, raw-IP framing on a MAC-less device; if no admissible choice exists: an error (exit status or error record) and zero probe frames. non-trivial: >=2 configured interfaces; distinct by case",
 		Gen:  c17Gen,
 		Check: c17Check,
 	})
